@@ -213,3 +213,26 @@ package bam
 //@   ensures[C18] @reported (rerr != nil && rerr != io.EOF) ==> result1 != nil
 //@   ensures[C18] @heads headsOK(m)
 //@   ensures[C18] @record result0 != nil
+
+// Index.Chunks (C04): the BAM index passes the query on unchanged, with the
+// reference's id, and merges what the BAI-style index returns with the
+// adjacent strategy: every chunk the linear index does not rule out is
+// covered by a returned chunk. Stated for the default strategy
+// (i.MergeStrategy == nil); a strategy supplied by the user is a function
+// value about which nothing is known.
+//@ func Index.Chunks
+//@   mode int
+//@   props C04
+//@   returns separately
+//@   requires i != nil && i.MergeStrategy == nil && i.idx.IsSorted && validIv(beg, end)
+//@   requires r != nil ==> (0 <= r.id && int(r.id) < len(i.idx.Refs) &&
+//@       binsValid(i.idx.Refs[int(r.id)].Bins) && binsSorted(i.idx.Refs[int(r.id)].Bins) && binsSmall(i.idx.Refs[int(r.id)].Bins) &&
+//@       (forall t in 0..len(i.idx.Refs[int(r.id)].Intervals) :: okOff(i.idx.Refs[int(r.id)].Intervals[t])) &&
+//@       (forall a in 0..len(i.idx.Refs[int(r.id)].Bins) :: forall k in 0..len(i.idx.Refs[int(r.id)].Bins[a].Chunks) :: wfC(i.idx.Refs[int(r.id)].Bins[a].Chunks[k])))
+//@   modifies arrays(bgzf.Chunk)
+//@   ensures[C04] @known (r != nil && div(beg, 16384) < len(i.idx.Refs[int(r.id)].Intervals)) ==> result1 == nil
+//@   ensures[C04] @complete (r != nil && result1 == nil) ==> (forall cc in 0..len(i.idx.Refs[int(r.id)].Bins) :: forall k in 0..len(i.idx.Refs[int(r.id)].Bins[cc].Chunks) ::
+//@       forall j in div(beg, 16384)..len(i.idx.Refs[int(r.id)].Intervals) ::
+//@       (ovl(i.idx.Refs[int(r.id)].Bins[cc].Bin, beg, end) &&
+//@        tileHit(i.idx.Refs[int(r.id)].Intervals, div(beg, 16384), j, beg, end, voff(i.idx.Refs[int(r.id)].Bins[cc].Chunks[k].End))) ==>
+//@       exists m in 0..len(result0) :: covers(result0[m], i.idx.Refs[int(r.id)].Bins[cc].Chunks[k]))
